@@ -58,6 +58,10 @@ type wParams struct {
 	HashStep       int64 `json:"hash_step,omitempty"` // >0: the prefix-hash block for this run (rule R11), default the real 10 MiB
 
 	DstRoot string `json:"dstroot,omitempty"` // use (and keep) this destination directory instead of a fresh one
+	// DstSame (follow-up transfers): into the destination of the previous transfer instead of a fresh one
+	DstSame bool `json:"dstsame,omitempty"`
+	// RelayConnector "hang": the relays' own tunnel connector blocks for 30 s and then fails
+	RelayConnector string `json:"relay_connector,omitempty"`
 	// DstNested: the destination is <scratch>/nest/2024/incoming, three otherwise empty levels
 	DstNested bool `json:"dstnested,omitempty"`
 
@@ -199,7 +203,7 @@ type wLocalFault struct {
 type wFault struct {
 	Dir  string `json:"dir"`  // "c2s" | "s2c"
 	Off  int    `json:"off"`  // offset in the unfaulted stream of that direction
-	Kind string `json:"kind"` // flip0 flip5 del dup insnl insA trunc
+	Kind string `json:"kind"` // flip0 flip5 del dup insnl insA trunc dupline delline
 }
 
 // faultFilter applies the faults of one direction to the chunks written to a wire.
@@ -250,6 +254,20 @@ func faultFilter(faults []wFault, dir string) func([]byte) []byte {
 			case "insA":
 				out = append(out[:i], append([]byte{'A'}, out[i:]...)...)
 				shift++
+			case "dupline", "delline":
+				// a whole protocol line (from this offset up to and including its LF, within this write) repeated / lost
+				j := bytes.IndexByte(out[i:], '\n')
+				if j < 0 {
+					j = len(out) - i - 1
+				}
+				line := append([]byte(nil), out[i:i+j+1]...)
+				if f.Kind == "dupline" {
+					out = append(out[:i+j+1], append(line, out[i+j+1:]...)...)
+					shift += len(line)
+				} else {
+					out = append(out[:i], out[i+j+1:]...)
+					shift -= len(line)
+				}
 			case "trunc":
 				out = out[:i]
 				dead = true
@@ -373,6 +391,16 @@ func treeRecipe(name string) (entries []treeEntry, tops []string) {
 		file("p1/same.txt", 'T', 10, 500)
 		file("p2/same.txt", 'R', 11, 800)
 		tops = []string{"p1/same.txt", "p2/same.txt"}
+	case name == "dirsame": // two directories with the same base name, from two places
+		dir("q1")
+		dir("q2")
+		dir("q1/same")
+		dir("q2/same")
+		file("q1/same/one.txt", 'T', 16, 600)
+		file("q2/same/two.bin", 'R', 17, 900)
+		dir("q2/same/sub")
+		file("q2/same/sub/three", 'E', 18, 50)
+		tops = []string{"q1/same", "q2/same"}
 	case name == "prefixnames": // names that are string prefixes of one another
 		file("lib", 'T', 13, 700)
 		file("lib64", 'R', 14, 1500)
@@ -779,7 +807,12 @@ func buildWorld(p wParams) *world {
 		r := NewTrzszRelay(w.c2s[i], w.s2c[i], w.c2s[i+1], w.s2c[i+1], TrzszOptions{})
 		if p.Tunnel {
 			tag := fmt.Sprintf("relay%d", i)
-			r.SetTunnelConnector(func(port int) net.Conn { return dialOrNil(port, tag) })
+			if p.RelayConnector == "hang" {
+				// the jump host cannot reach the server's port and finds out only after 30 s
+				r.SetTunnelConnector(func(port int) net.Conn { vs.Sleep(30 * time.Second); return nil })
+			} else {
+				r.SetTunnelConnector(func(port int) net.Conn { return dialOrNil(port, tag) })
+			}
 		}
 		w.relays = append(w.relays, r)
 	}
@@ -1200,7 +1233,9 @@ func (w *world) nextTransfer(st wParams, k int) {
 		base.Stop = &cp
 	}
 	w.p = base
-	w.dstRoot = filepath.Join(w.root, fmt.Sprintf("dst%d", k))
+	if !st.DstSame {
+		w.dstRoot = filepath.Join(w.root, fmt.Sprintf("dst%d", k))
+	}
 	must(os.MkdirAll(w.dstRoot, 0o755))
 	w.srcRoot, w.entries, w.tops = sharedTree(base.Tree)
 	w.pre = snapshotFull(w.dstRoot)
